@@ -269,7 +269,8 @@ class QuantumState:
         if isinstance(new_data, list):
             new_rep = MixedGraph(new_data)
         else:
-            new_rep = Graph(new_data)
+            # density_to_graph returns an adjacency matrix for a pure state
+            new_rep = Graph(nx.from_numpy_array(new_data))
         return new_rep
 
     def _density_to_stabilizer(self, rep):
